@@ -8,7 +8,7 @@ from ..rel import prog as P, run as R, e2e as E
 
 TRUSTED = [
     "Coq 8.16.1 kernel (coqc, vm_compute); no axioms (every theorem: Closed under the global context)",
-    "translator vplib/translate/gen_split.py (is_split_required of sql/pq/anchor.rs -> Coq function, arm by arm, fail closed)",
+    "translator vplib/translate/gen_split.py (is_split_required of sql/pq/anchor.rs -> Coq function, arm by arm, fail closed; code guarded by #[cfg(prqlc_verif)] -- verification hooks, absent from normal builds -- is removed first, any other mention of that cfg is an extraction failure)",
     "reference semantics coq/Model/Rel.v + Model/Value.v = formalisation of the documented meaning of the transforms and of SQLite's scalar conventions (hand-written specification)",
     "specification of SQL's logical clause order (lo/hi/multi in coq/Model/SplitBase.v)",
     "end-to-end oracle: program generator/printers vplib/rel/prog.py, harness (prqlc::compile, rusqlite bundled SQLite), comparison in vplib/rel/run.py",
@@ -109,10 +109,15 @@ def segments_stream(ck, recs):
             continue
         seen[rec["prql"]] = rec
     srcs = list(seen)
-    ans = harness("log", [{"src": s, "target": "sql.sqlite", "want": ["ReprPq"]} for s in srcs])
+    # DISTINCT ON exists only on some dialects: programs with a `group (.. take ..)` are also compiled (not executed) for
+    # sql.postgres and the atomic SELECTs of that PQ are judged as well
+    pg_srcs = [s for s in srcs if any(k in ("distinct", "group_take", "group_take1") for k in seen[s]["program"].kinds())]
+    jobs = [(s, "sql.sqlite") for s in srcs] + [(s, "sql.postgres") for s in pg_srcs]
+    ans = harness("log", [{"src": s, "target": t, "want": ["ReprPq"]} for s, t in jobs])
     segs_by_src = {}
     allsegs = []
-    for s, a in zip(srcs, ans):
+    for (s, tgt), a in zip(jobs, ans):
+        ck.stat("segments", "target:" + tgt)
         pqs = [e["ReprPq"] for e in a.get("entries", []) if "ReprPq" in e]
         if not pqs:
             continue
@@ -145,16 +150,16 @@ def segments_stream(ck, recs):
         if "AtomicPipeline" in mr:
             segs.append(kinds(mr["AtomicPipeline"]))
             bare += bare_columns(mr["AtomicPipeline"])
-        segs_by_src[s] = segs
-        ck.count("aggregating-selects", s)
+        segs_by_src[(s, tgt)] = segs
+        ck.count("aggregating-selects", s + "|" + tgt)
         if bare:
             rec = seen[s]
             fid = "F44-grouped-aggregate-keeps-sort" if rec["program"].meta.get("agg_in_group_not_last") else None
             ck.disagreement("an aggregating SELECT projects a column that is neither a group key nor an aggregate: %s" % s.replace("\n", " | ")[:200],
-                            {"prql": s, "sql": rec.get("sql"), "bare_cids": bare}, lambda c, f=fid: f)
+                            {"prql": s, "target": tgt, "sql": rec.get("sql"), "bare_cids": bare}, lambda c, f=fid: f)
         for sg in segs:
-            allsegs.append((s, sg))
-    uniq = sorted({tuple(sg) for _, sg in allsegs})
+            allsegs.append((s, sg, tgt))
+    uniq = sorted({tuple(sg) for _, sg, _ in allsegs})
     unknown = [k for sg in uniq for k in sg if k not in KIND_OF_PQ]
     if unknown:
         ck.coverage["segments_unknown_kinds"] = sorted(set(unknown))
@@ -162,14 +167,14 @@ def segments_stream(ck, recs):
     exprs = ["clause_ordered [%s]" % "; ".join(KIND_OF_PQ[k] for k in sg if k in KIND_OF_PQ) for sg in uniq]
     vals = coq_eval(header, exprs) if exprs else []
     verdict = dict(zip(uniq, vals))
-    for s, sg in allsegs:
-        ck.count("segments", s + "|" + ",".join(sg))
+    for s, sg, tgt in allsegs:
+        ck.count("segments", s + "|" + tgt + "|" + ",".join(sg))
         ck.stat("segments", "len:%d" % len(sg))
         if verdict.get(tuple(sg)) is not True:
             rec = seen[s]
             fid = "F19-take-then-distinct" if ("Take" in sg and "Distinct" in sg and sg.index("Take") < sg.index("Distinct")) else None
-            ck.disagreement("atomic SELECT is not clause-ordered: %s in %s" % (sg, s.replace("\n", " | ")[:200]),
-                            {"prql": s, "segment": sg, "sql": rec.get("sql")}, lambda c, f=fid: f)
+            ck.disagreement("atomic SELECT is not clause-ordered: %s in %s [%s]" % (sg, s.replace("\n", " | ")[:200], tgt),
+                            {"prql": s, "target": tgt, "segment": sg, "sql": rec.get("sql") if tgt == "sql.sqlite" else None}, lambda c, f=fid: f)
     ck.coverage["segments_distinct_shapes"] = len(uniq)
 
 
@@ -230,6 +235,8 @@ def run():
         cases.append((pg, [P.gen_instance(rng, max_rows=7, min_rows=6)]))
     for _fid, pg, inst in E.directed_known(rng):                # one hand-built program per open finding the streams seldom hit
         cases.append((pg, [inst or P.gen_instance(rng, max_rows=7, min_rows=5)]))
+    for _lbl, pg in E.directed_fixed():                         # replays of repaired findings: nothing excuses a recurrence
+        cases.append((pg, [P.gen_instance(rng, max_rows=7, min_rows=5), P.gen_instance(rng, max_rows=7, min_rows=5)]))
     recs3 = E.run_stream(ck, "directed", cases, targets, judge_rows, classify)
     segments_stream(ck, recs3)
 
@@ -246,4 +253,4 @@ def run():
     ck.assumptions += ["instances: integers and NULL in {NULL,-1,0,1,2,3}, 0..6 rows, ids unique, insertion order shuffled; floats only as results of `/`",
                        "generic-dialect SQL is executed on SQLite; constructs SQLite cannot run for the generic target (OFFSET without LIMIT) are skipped and counted",
                        "rows are compared as multisets here (sequence order is C03, column names C05)"]
-    ck.finish(TRUSTED, "streams: ranges = all pairs (+ sampled triples) of take ranges with bounds in {open,1..4}; pairs = every ordered pair of 13 transform kinds forced adjacent; random = programs of 1..7 transforms; each on 2 instances x {sqlite, generic}; segments = every atomic pipeline of the implementation's final PQ judged by the Coq `clause_ordered`. distinct = hash of (program, target, instance); non-trivial = non-empty result or a failure")
+    ck.finish(TRUSTED, "streams: ranges = all pairs (+ sampled triples) of take ranges with bounds in {open,1..4}; pairs = every ordered pair of 13 transform kinds forced adjacent; random = programs of 1..7 transforms; each on 2 instances x {sqlite, generic}; directed = families the split/sort machinery is sensitive to + one hand-built program per open finding (E.directed_known) + replays of repaired findings (E.directed_fixed: a recurrence is a VIOLATION); segments = every atomic pipeline of the implementation's final PQ (sql.sqlite; sql.postgres too for programs with `group (.. take ..)`, where DISTINCT ON exists) judged by the Coq `clause_ordered`, and every aggregating SELECT checked to project group keys and aggregates only. distinct = hash of (program, target, instance); non-trivial = non-empty result or a failure")
